@@ -190,8 +190,8 @@ def run_case(case):
     eitems = [{"fq": fq, "path": path} for fq, e, path in enums]
     script = {"root_pkg": apigen.lib_root(api.info, api.options), "messages": items, "enums": eitems}
     ev, rc, err = pipeline.run_runner("checks.c02", script, lib, timeout=300)
-    if ev is None or "runner_crash" in ev:
-        return {"verdict": "inconclusive", "why": f"runner rc={rc} {err[-600:]} {str(ev)[:1500]}"}
+    if ev is None or "runner_crash" in ev or "library_import_error" in ev:
+        return pipeline.runner_failed_result(ev, rc, err, api)
     viol, counters, sigs = [], {}, set()
 
     def bump(k, n=1):
